@@ -239,6 +239,97 @@ def x_item(i, c, p, theorem, y):
     return '\n'.join(t)
 
 
+STATUS_WORDS = [('married filing jointly', 'MFJ'), ('married filing separately', 'MFS'), ('head of household', 'HoH'),
+                ('qualifying surviving spouse', 'QSS'), ('qualifying widow(er)', 'QSS'), ('single', 'S')]
+
+
+def parse_status_table(sp):
+    """'5. Enter the following amount for your filing status: Married filing jointly, $250,000. Married filing separately, $125,000.
+    Single, Head of household, or Qualifying surviving spouse, $200,000.'  ->  {'MFJ': 250000, ...} (None unless all five statuses get exactly one amount)"""
+    m = re.search(r'Enter the following amount for your filing status:\s*(.*)$', sp, re.S)
+    if not m:
+        return None
+    table = {}
+    for seg in re.findall(r'([A-Za-z][A-Za-z ,()]*?),?\s*\$([\d,]+(?:\.\d\d)?)\s*\.', m.group(1)):
+        words, amount = seg[0].lower(), float(seg[1].replace(',', ''))
+        rest = words
+        for w, key in STATUS_WORDS:
+            if w in rest:
+                if key in table:
+                    return None
+                table[key] = amount
+                rest = rest.replace(w, ' ')
+        if re.sub(r'\b(or|and)\b|[ ,]', '', rest):
+            return None             # words the grammar does not know: no obligation rather than a guess
+    return table if set(table) == {'MFJ', 'MFS', 'HoH', 'QSS', 'S'} else None
+
+
+def status_table_pass(ck, H, summ):
+    """lines whose official instruction is a table of amounts by filing status: the regenerated line is evaluated in the kernel for each of the
+    five statuses (theorem C02_status_tables_<y>, finite and exhaustive) and the real line is replayed on the same store"""
+    from . import c08
+    files = []
+    for y in summ:
+        fs = list(H['enum'].filing_status_2021 if y == 2021 else H['enum'].filing_status)
+        enums = gen_forms.Enums(H['enum'])
+        probes = []
+        for cls in H['forms'].available_forms[y]:
+            obj = cls(instance=gen_forms.instances_of(cls)[0])
+            if not obj.pdf_file() or getattr(cls, 'valid_instances', None):
+                continue
+            try:
+                t = pdf_reader.read_template(obj.pdf_file())
+            except Exception:  # noqa
+                continue
+            if t['source'] != 'xfa':
+                continue
+            for pf in obj.pdf_fields():
+                w = t['fields'].get(pf.pdf_field_name)
+                if not w or '.' in pf.field_name or getattr(pf, '_value_fn', None) is not None or not isinstance(pf, H['pdf_fields'].TextPDFField):
+                    continue
+                table = parse_status_table(w['speak'])
+                if table is None or (pdf_reader.line_label(w['speak']) and pdf_reader.line_label(w['speak']) != pf.field_name):
+                    continue
+                for sk, amount in table.items():
+                    forms = [cls.form_name] + ([] if cls.form_name == '1040' else ['1040'])
+                    probes.append({'item': 'status table', 'status': sk, 'member': fs[c08.STATUS[sk]], 'amount': amount, 'how': 'shows', 'form': cls.form_name,
+                                   'instance': None, 'line': pf.field_name, 'vals': {}, 'inps': {'1040.filing_status': fs[c08.STATUS[sk]]}, 'forms': forms,
+                                   'expect': float(amount), 'cite': w['speak'][:160]})
+        if not probes:
+            continue
+        txt = [catalog.HEADER % {'y': y},
+               'Definition probes : list probe := %s.' % gen_forms.clist([c08.probe_coq(p, enums) for p in probes]),
+               'Goal True. idtac "@@BAD". Abort.',
+               'Eval vm_compute in bad_probes cat (tax_fn %d cfg) probes.' % y,
+               'Theorem C02_status_tables_%d : probes_ok cat (tax_fn %d cfg) probes = true.' % (y, y),
+               'Proof. vm_compute. reflexivity. Qed.',
+               'Goal True. idtac "@@PA C02_status_tables_%d". Abort.' % y, 'Print Assumptions C02_status_tables_%d.' % y]
+        files.append((y, probes, ck.write_gen('C02_status_%d.v' % y, '\n'.join(txt) + '\n')))
+    res = ck.coqc_many([f for _, _, f in files], timeout=600)
+    n_tot = 0
+    for y, probes, f in files:
+        ok, out = res[f]
+        ck.harvest_assumptions(out)
+        bad = []
+        if '@@BAD' in out:
+            seg = out.split('@@BAD', 1)[1].split('@@', 1)[0].split(': list')[0]
+            bad = [int(x) for x in re.findall(r'\d+', seg.replace('%nat', ''))]
+        ck.oblige('theorem:C02_status_tables_%d (%d line x status probes)' % (y, len(probes)), ok or bool(bad), out[-300:] if not ok else '')
+        n_tot += len(probes)
+        for i, p in enumerate(probes):
+            ck.count((y, 'status-table', p['form'], p['line'], p['status']), nontrivial=True)
+            real = c08.replay_real(H, y, p)
+            real_ok = real[0] == 'val' and isinstance(real[1], (int, float)) and abs(float(real[1]) - p['expect']) < 1e-9
+            if i in bad or not real_ok:
+                ck.violation('C02:%d:%s.%s:status-table:%s' % (y, p['form'], p['line'], p['status']),
+                             'ty%d %s line %s for %s: the template says %s ("%s"); the real line gives %s%s' % (
+                                 y, p['form'], p['line'], p['status'], p['amount'], p['cite'][:90], real, '' if i in bad else ' (the model agreed with the template!)'),
+                             {'kind': 'failing-input', 'year': y, 'form': p['form'], 'line': p['line'], 'status': p['status'], 'instruction': p['cite'],
+                              'inputs_store': {'1040.filing_status': str(getattr(p['member'], 'name', p['member']))}, 'expected': p['expect'],
+                              'observed_on_real_line': str(real)}, found=True)
+    ck.cov['status_table_instructions'] = {'line x status probes': n_tot}
+
+
 def x_pass(ck, summ, per_year):
     """the same lemmas stated on the stored value through Xexp.tsem: their tie to the interpreter is XexpProofs.xtop_sound (proved)"""
     files = []
@@ -503,6 +594,7 @@ def run(tier, seed):
             txt += ['Goal True. idtac "@@PA C02_%d_%d". Abort.' % (y, good[0]), 'Print Assumptions C02_%d_%d.' % (y, good[0])]
         thm_files.append((y, len(good), ck.write_gen('C02_%d.v' % y, '\n'.join(txt) + '\n')))
     x_pass(ck, summ, per_year)
+    status_table_pass(ck, H, summ)
     # carry sentences: the destination line must (statically, through intermediate lines) read the source line - for every copy of a per-person form
     carry_files = []
     carry_bad = []
